@@ -89,7 +89,9 @@ TreeFault ==
 \* C13 frame condition: everything the client held before the call (every node-set, element by
 \* element, and the document, by digest) is unchanged after it
 \* ... and the binding maps handed to the call (namespaces, variables, functions: digests taken before and after)
-BindingsKept(ev) == ~Has(ev, "envpre") \/ ev.envpre = ev.envpost
+BindingsKept(ev) == (~Has(ev, "envpre") \/ ev.envpre = ev.envpost)
+                    \* ... and the call repeated at once with the same expression, node and bindings gave the same result
+                    /\ (~Has(ev, "again") \/ ev.again)
 FrameOK(ev) == BindingsKept(ev) /\ (snap = <<>> \/ ~Has(ev, "held") \/
    (/\ Len(ev.held) >= Len(snap.held)
     /\ \A i \in 1..Len(snap.held) : ev.held[i] = snap.held[i]
